@@ -1,5 +1,6 @@
 (** C19 — codec libraries invert each other and are total on hostile input: property theorems only. *)
-From ChibiV Require Import C19.Prims C19.Base64 C19.Base64Proofs C19.IntCodec C19.IntCodecProofs.
+From ChibiV Require Import C19.Prims C19.Base64 C19.Base64Proofs C19.IntCodec C19.IntCodecProofs
+  C19.Json C19.JsonProofs C19.JsonValueProofs C19.QP C19.QPProofs C19.Uri C19.UriProofs.
 Local Open Scope Z_scope.
 
 (** base64: decode . encode = id on every byte string (any length class mod 3) *)
@@ -53,3 +54,47 @@ Theorem accessor_set_ref : forall (w : nat) (signed big : bool) (bv bv' : list Z
   (forall i, (i < Z.to_nat k \/ Z.to_nat k + w <= i)%nat -> nth_error bv' i = nth_error bv i).
 Proof. exact IntCodecProofs.accessor_set_ref. Qed.
 Print Assumptions accessor_set_ref.
+
+(** JSON strings: for every sequence of Unicode scalar values the writer's escaped text (incl. every surrogate
+    pair, every control character, quote and backslash) is read back as exactly the UTF-8 bytes of that sequence *)
+Theorem json_string_escape_roundtrip : forall (s : list Z), Forall (fun c => scalar c = true) s ->
+  exists t, wr_chars s = Some t /\
+    forall (f : nat) (rest : list Z), (length s < f)%nat -> read_string f (t ++ rest) = Ok (utf8_str s, rest).
+Proof. exact JsonProofs.json_string_escape_roundtrip. Qed.
+Print Assumptions json_string_escape_roundtrip.
+
+(** JSON values of any shape and any depth up to the reader's limit (exact integers |z| <= 2^62-1, no floats, object
+    keys = strings, strings = scalar values): reading what the writer wrote gives the value back, strings as the
+    UTF-8 of their code points.  [need v] is an explicit fuel bound (fuel is not in the code). *)
+Theorem json_roundtrip : forall (v : json) (fuel : nat),
+  wfj v -> jdepth v <= MAXDEPTH -> (need v <= fuel)%nat ->
+  exists t, jwrite v = Some t /\ jread fuel 0 t = Ok (utf8_val v, []).
+Proof. exact JsonValueProofs.json_roundtrip. Qed.
+Print Assumptions json_roundtrip.
+
+(** quoted-printable (repaired encoder, pinned decoder) *)
+Theorem qp_roundtrip : forall bs, bytes bs -> qp_decode (qp_encode bs) = Some bs.
+Proof. exact QPProofs.qp_roundtrip. Qed.
+Print Assumptions qp_roundtrip.
+
+Theorem qp_alphabet : forall bs, bytes bs -> Forall (fun c => qp_char c = true) (qp_encode bs).
+Proof. exact QPProofs.qp_alphabet. Qed.
+Print Assumptions qp_alphabet.
+
+Theorem qp_line_length : forall bs, bytes bs -> max_line (qp_encode bs) 0 0 <= 76.
+Proof. exact QPProofs.qp_line_length. Qed.
+Print Assumptions qp_line_length.
+
+(** URI escaping (pinned code), for ANY classification [ext] of the non-ASCII alphabetic/numeric characters:
+    decode (encode s) = s whenever every character that needs escaping is below U+0100 ... *)
+Theorem uri_roundtrip : forall (ext : Z -> bool) (plus : bool) (s : list Z),
+  Forall (encodable ext) s -> uri_dec plus (uri_encode ext plus s) = Some s.
+Proof. exact UriProofs.uri_roundtrip. Qed.
+Print Assumptions uri_roundtrip.
+
+(** ... and NOT above (finding F-C19-1, sig uri:roundtrip:unsafe-char-above-latin1): the euro sign comes back as " ac" *)
+Theorem uri_roundtrip_refuted :
+  uri_encode (fun _ => false) false [8364] = [37; 50; 48; 97; 99] /\
+  uri_dec false (uri_encode (fun _ => false) false [8364]) = Some [32; 97; 99].
+Proof. exact UriProofs.uri_roundtrip_refuted. Qed.
+Print Assumptions uri_roundtrip_refuted.
